@@ -242,7 +242,19 @@ pub fn run_plan(ctx: &Ctx, plan: &SweepPlan) -> (u64, u64) {
         rt += b;
     }
     if !plan.skip_reach {
-        ctx.run.family("F-REACH", &format!("{} seeds, depth {} (large middlegame seeds: {})", seeds.len(), plan.reach_depth_small, plan.reach_depth_big), rs, rt, true, "BFS, identity = placement+side+rights+ep");
+        for s in families::many_move_seeds() {
+            let p = Pos::from_fen(s.fen).unwrap();
+            if !p.is_legal_position() || p.legal_moves().len() < 130 {
+                ctx.run.machinery_error(format!("seed {} is not a legal position with many moves ({} moves)", s.name, p.legal_moves().len()));
+                continue;
+            }
+            let (a, b) = bfs(ctx, s.name, &p, 1, &total);
+            rs += a;
+            rt += b;
+        }
+    }
+    if !plan.skip_reach {
+        ctx.run.family("F-REACH", &format!("{} seeds, depth {} (large middlegame seeds: {}; 6 seeds with 133-218 legal moves: 1)", seeds.len(), plan.reach_depth_small, plan.reach_depth_big), rs, rt, true, "BFS, identity = placement+side+rights+ep");
         add((rs, rt));
     }
     if plan.rights {
